@@ -46,13 +46,30 @@ def mk_int(i):
 u_truthy = z3.Function('u_truthy', IntS, BoolS)
 
 
+TRUTHY = z3.Function('truthy', PyV, BoolS)
+
+
 def truthy_term(v):
-    """Python truthiness of a PyV term, as a z3 Bool."""
-    return z3.If(PyV.is_none(v), False,
-           z3.If(PyV.is_bool_(v), PyV.b(v),
-           z3.If(PyV.is_int_(v), PyV.i(v) != 0,
-           z3.If(PyV.is_str_(v), z3.Length(PyV.s(v)) > 0,
-           z3.If(PyV.is_opq(v), u_truthy(PyV.oid(v)), True)))))
+    """Python truthiness of a PyV term, as a z3 Bool.  An uninterpreted predicate pinned down by axioms for the
+    built-in constructors (keeps strings / arithmetic out of formulas that merely test a flag); free for opaque
+    user values."""
+    return TRUTHY(v)
+
+
+def truthy_axioms():
+    b = z3.Bool('tb')
+    i = z3.Int('ti')
+    s = z3.String('ts')
+    x = z3.Const('tx', PyV)
+    return [
+        z3.Not(TRUTHY(NONE)),
+        z3.ForAll([b], TRUTHY(PyV.bool_(b)) == b, patterns=[TRUTHY(PyV.bool_(b))]),
+        z3.ForAll([i], TRUTHY(PyV.int_(i)) == (i != 0), patterns=[TRUTHY(PyV.int_(i))]),
+        z3.ForAll([s], TRUTHY(PyV.str_(s)) == (z3.Length(s) > 0), patterns=[TRUTHY(PyV.str_(s))]),
+        z3.ForAll([x], z3.Implies(z3.Or(PyV.is_rec(x), PyV.is_exc(x), PyV.is_case(x), PyV.is_tup2(x), PyV.is_task(x),
+                                        PyV.is_ref(x)), TRUTHY(x)), patterns=[TRUTHY(x)]),
+        z3.ForAll([i], TRUTHY(PyV.opq(i)) == u_truthy(i), patterns=[TRUTHY(PyV.opq(i))]),
+    ]
 
 
 # --------------------------------------------------------------------------------------
@@ -134,7 +151,7 @@ class ClassLattice:
                             patterns=[subcls(x, self.codes['BaseException'])]))
         ax.append(z3.ForAll([x, y, w], z3.Implies(z3.And(subcls(x, y), subcls(y, w)), subcls(x, w)),
                             patterns=[z3.MultiPattern(subcls(x, y), subcls(y, w))]))
-        return ax
+        return ax + truthy_axioms()
 
 
 LATTICE = ClassLattice()
@@ -312,7 +329,10 @@ def as_bool_term(x):
     if isinstance(x, SymS):
         return z3.Length(x.t) > 0
     if isinstance(x, SymV):
-        return z3.simplify(truthy_term(x.t))
+        low = lower(x.t)
+        if not isinstance(low, SymV):
+            return as_bool_term(low)
+        return truthy_term(x.t)
     if isinstance(x, (Ref, ClsRef)):
         return True
     if isinstance(x, EnumMember):
